@@ -225,8 +225,26 @@ fn cmd(r: &mut Rng) -> String {
     }
 }
 
-fn generate(r: &mut Rng, n: usize, _tier: &str) -> Vec<String> {
+fn generate(r: &mut Rng, n: usize, tier: &str) -> Vec<String> {
     let mut out = vec![];
+    if tier == "thorough" {
+        // small-scope exhaustive: every sequence of length <= 5 over a 7-op alphabet, one exact and one
+        // prefix watcher, tiny buffer (1) and ring (2), heartbeat on
+        let alphabet = ["x:p./a/b.1", "x:c./a/b.1.2,d./a/b", "d", "t:1:1", "t:2:1", "h", "r:/a/b:1"];
+        let mut stack: Vec<Vec<&str>> = vec![vec![]];
+        while let Some(sq) = stack.pop() {
+            if !sq.is_empty() {
+                out.push(format!("buf=1 q=2 max=16 hb=1 la=0|r:/a/b:0;R:/a/:0;{}", sq.join(";")));
+            }
+            if sq.len() < 5 {
+                for a in alphabet.iter() {
+                    let mut t = sq.clone();
+                    t.push(a);
+                    stack.push(t);
+                }
+            }
+        }
+    }
     for i in 0..n {
         // i % 4 == 3: stress stream (tiny ring / tiny buffers, dispatcher rarely runs); otherwise roomy ring
         let stress = i % 4 == 3;
